@@ -264,3 +264,15 @@ theorem finv_run (base : Name) (segs : List Bytes) (hn : segs.length < 2 ^ 64)
     simpa [runFetch, List.reverse_cons, List.append_assoc] using this
 
 end Ndn.C15
+
+namespace Ndn.C15
+
+theorem zip_range_map {α β : Type} (l : List α) (d : α) (g : Nat × α → β) :
+    ((List.range l.length).zip l).map g = (List.range l.length).map fun i => g (i, l.getD i d) := by
+  apply List.ext_getElem
+  · simp
+  · intro i h1 h2
+    simp only [List.length_map, List.length_zip, List.length_range, Nat.min_self] at h1
+    simp [List.getD_eq_getElem?_getD, List.getElem?_eq_getElem h1]
+
+end Ndn.C15
